@@ -5,6 +5,7 @@ package font
 import (
 	"encoding/binary"
 	"errors"
+	"unicode"
 
 	"github.com/go-text/typesetting/font/opentype/tables"
 )
@@ -384,7 +385,25 @@ func (s cmap6or10) Lookup(r rune) (GID, bool) {
 
 type cmap12 []tables.SequentialMapGroup
 
-func newCmap12(cm tables.CmapSubtable12) cmap12 { return cm.Groups }
+func newCmap12(cm tables.CmapSubtable12) cmap12 { return sanitizeCmapGroups(cm.Groups) }
+
+// sanitizeCmapGroups drops the invalid groups (end before start, start past the last
+// Unicode code point, not after the previous group) and clamps the end of the other ones,
+// so that iterating over the cmap is bounded by the size of the Unicode range.
+func sanitizeCmapGroups(groups []tables.SequentialMapGroup) []tables.SequentialMapGroup {
+	out := groups[:0]
+	for _, g := range groups {
+		if g.EndCharCode < g.StartCharCode || g.StartCharCode > unicode.MaxRune ||
+			(len(out) != 0 && g.StartCharCode <= out[len(out)-1].EndCharCode) {
+			continue
+		}
+		if g.EndCharCode > unicode.MaxRune {
+			g.EndCharCode = unicode.MaxRune
+		}
+		out = append(out, g)
+	}
+	return out
+}
 
 type cmap12Iter struct {
 	data cmap12
@@ -432,7 +451,7 @@ func (s cmap12) Lookup(r rune) (GID, bool) {
 
 type cmap13 []tables.SequentialMapGroup
 
-func newCmap13(cm tables.CmapSubtable13) cmap13 { return cm.Groups }
+func newCmap13(cm tables.CmapSubtable13) cmap13 { return sanitizeCmapGroups(cm.Groups) }
 
 type cmap13Iter struct {
 	data cmap13
